@@ -7,7 +7,7 @@
    accepted (C19_never_wedged; the invariant behind it, preserved by every label of the connection machine, is in
    Proofs/ConnWedge.v and Proofs/ClientProofs.v). *)
 From Coq Require Import NArith ZArith List Bool.
-From Verif Require Import Model.Conn Model.Client Proofs.ConnWedge Proofs.ClientProofs.
+From Verif Require Import Model.Conn Model.Client Proofs.ConnWedge Proofs.ClientProofs Proofs.Product.
 Import ListNotations.
 
 Theorem C19_start_accepted_iff_free : forall k k' o,
@@ -103,3 +103,32 @@ Example C19_never_wedged_applies :
     (crun (client_init false false 20480 []) [CStart; CConn (LResolveDone (Some (Lib LResolve)) 1); CConn (LWake TStart)])
   = Some (Closed, false, false).
 Proof. split; vm_compute; reflexivity. Qed.
+
+(* ---------------------------------------------------------------- several clients in one process *)
+(* Two APIClient objects of one process are the interleaving product of two client machines (Proofs/Product.v: the model has no
+   state outside the client). Each of them runs its own calls and events only, so it never wedges whatever the other one goes
+   through - failed attempts, write failures, sessions that die of any cause. (That the code has no state outside the client
+   and its connection is what the two-client probes of the checks test.) *)
+Definition client_pair_run := prun client client clabel clabel (list cobs) (list cobs) cstep cstep.
+
+Lemma crun_is_runA : forall ls k, crun k ls = runA client clabel (list cobs) cstep k ls.
+Proof.
+  induction ls as [|l r IH]; intro k; cbn; [reflexivity|].
+  destruct (cstep k l) as [[k1 o]|]; [|reflexivity]. rewrite IH. reflexivity.
+Qed.
+
+Theorem C19_two_clients_independent : forall ls a b a' b' os,
+  client_pair_run (a, b) ls = Some ((a', b'), os) ->
+  crun a (labelsA clabel clabel ls) = Some (a', obsA (list cobs) (list cobs) os).
+Proof.
+  intros ls a b a' b' os H. rewrite crun_is_runA.
+  exact (proj1 (product_projects _ _ _ _ _ _ cstep cstep ls a b a' b' os H)).
+Qed.
+
+Theorem C19_never_wedged_beside_another_client : forall nz ex ka scr b ls k b' os,
+  client_pair_run (client_init nz ex ka scr, b) ls = Some ((k, b'), os) ->
+  cs (cl_conn k) = Closed -> SF (cl_conn k) = false -> cl_has k = false.
+Proof.
+  intros nz ex ka scr b ls k b' os H. apply C19_two_clients_independent in H.
+  exact (C19_never_wedged nz ex ka scr _ k _ H).
+Qed.
